@@ -332,12 +332,12 @@ structure MState where
   b : SLWorld := {}
   slots : Array (List EntityData) := #[]
   uuid : Bool := false
-  /-- entities with a queued lazy marking, per world, in queue order. The model has no lazy queue: a
-      `maintain` with queued markings is replayed as the model history `maintain; mark e₁; …; mark eₙ`
-      (that is what `World::maintain` does: entity merge and purge first, then the queued closures, each
-      of which calls `MarkerAllocator::mark`), so the theorems about all histories cover it. -/
-  lazyA : List Entity := []
-  lazyB : List Entity := []
+  /-- log positions of the entities with a queued lazy marking, per world, in queue order: `maintain` is then
+      `SLWorld.maintainLazy` (entity merge and purge first, then the queued closures, each of which calls
+      `MarkerAllocator::mark`), which `C15.lazy_marking_is_a_history` shows to be the history
+      `maintain; mark j₁; …; mark jₙ` — so the theorems about all histories cover it. -/
+  lazyA : List Nat := []
+  lazyB : List Nat := []
 
 def MState.get (m : MState) (b : Bool) : SLWorld := if b then m.b else m.a
 def MState.set (m : MState) (b : Bool) (x : SLWorld) : MState :=
@@ -370,16 +370,17 @@ def modelStep (m : MState) : Op → MState × Res
     if m.uuid && b then (m, .skip) else
     match SpecsModel.resolve (m.get b).log k with
     | none => (m, .skip)
-    | some e => (if b then { m with lazyB := m.lazyB ++ [e] } else { m with lazyA := m.lazyA ++ [e] }, .ok)
+    | some _ =>
+      -- the entity is captured now: its position in the log (the log only grows, `k % size` would drift)
+      let j := k % (m.get b).log.size
+      (if b then { m with lazyB := m.lazyB ++ [j] } else { m with lazyA := m.lazyA ++ [j] }, .ok)
   | .delNow b k => let (x, r) := (m.get b).step (.delNow k); (m.set b x, sresToRes r)
   | .delBatch b ks => let (x, r) := (m.get b).step (.delBatch ks); (m.set b x, sresToRes r)
   | .delAtomic b k => let (x, r) := (m.get b).step (.delAtomic k); (m.set b x, sresToRes r)
   | .maintain b =>
-    let (x, r) := (m.get b).step .maintain
+    let (x, r) := (m.get b).maintainLazy (if b then m.lazyB else m.lazyA)
     match r with
     | .ok =>
-      let queued := if b then m.lazyB else m.lazyA
-      let x := queued.foldl (fun (x : SLWorld) e => { x with w := (x.w.mark e).1 }) x
       let m := if b then { m with lazyB := [] } else { m with lazyA := [] }
       (m.set b x, .ok)
     | r => (m.set b x, sresToRes r)
